@@ -430,6 +430,12 @@ THEOREMS = [
     'C19.flatten_first_sublist', 'C19.flatten_last_sublist', 'C19.flatten_first_once', 'C19.flatten_last_once',
     'C19.flatten_first_sorted', 'C19.flatten_last_sorted', 'C19.flatten_first_earliest', 'C19.flatten_last_latest',
     'C19.flatten_first_complete', 'C19.flatten_last_complete',
+    # flatten with runs that have no rows (NaN maximum / minimum of pandas): together with flatten_first / flatten_last
+    # both styles are characterised for every input
+    'C19.flatten_first_empty_first', 'C19.flatten_first_empty_later', 'C19.flatten_last_empty_run',
+    'C19.flatten_last_empty_first',
+    # the refusals of flatten, and the one-record selection
+    'C19.flatten_refuses_missing_step', 'C19.flatten_refuses_empty', 'C19.flatten_refuses_style', 'C19.flatten_single',
 ]
 PARTIAL = {
     'timing breakdown': 'read_breakdown (read() returns and the records are right) covers the `MPI task timing breakdown` '
@@ -439,9 +445,12 @@ PARTIAL = {
                         'the performance tables is not part of the property and compared in the correspondence only',
     'value by value': 'the theorems are about the printed tokens (strings); that pandas turns the token of an int/float '
                       'column into the number it denotes is an assumption, checked by the oracle on the real code',
-    'flatten with empty runs': 'flatten_first needs a non-empty first run and flatten_last non-empty later runs (pandas '
-                               'compares against the NaN max/min of an empty table: first then keeps nothing, last '
-                               'drops everything before the empty run); the once/sorted/sublist theorems hold without',
+    'flatten with empty runs': 'no longer partial as a description of the code: flatten_first (non-empty first run, later '
+                               'runs arbitrary) + flatten_first_empty_first (empty first run: nothing is kept) and '
+                               'flatten_last (non-empty later runs) + flatten_last_empty_run / flatten_last_empty_first '
+                               '(everything before an empty run is dropped) cover every input; what stays partial is the '
+                               'property itself there: with a header-only block in the selection the code does NOT keep '
+                               'every timestep (pandas compares against the NaN max/min of an empty table)',
     'flatten every timestep': 'flatten_*_complete need the runs to share a thermo grid where they overlap (hypothesis '
                               'haligned); a restart on a shifted grid loses the steps below the previous maximum — the '
                               'code cannot do otherwise with its single comparison',
@@ -536,6 +545,13 @@ POST_END = ['Total # of neighbors = 312', 'Ave neighs/atom = 78', 'Neighbor list
             'run 100', 'minimize 1e-8 1e-8 100 1000', 'unfix 1', 'WARNING: New thermo_style command, previous '
             'thermo_modify settings will be lost (src/output.cpp:903)', 'print "done"', 'write_restart final.restart',
             'System init for write_restart ...']
+# lines that come close to a trigger string without containing one
+NEAR = ['print "Loop time was not measured"', '# Memory usage per process: unknown', 'variable Nlocal equal 4',
+        '# MPI task timing is off', 'Pair time (%) ok', 'print "Per MPI rank memory: n/a"', 'Loop time: 3 s',
+        'Minimization stats: skipped', '  Step size limit = 0.1']
+PREAMBLE += NEAR[:6]
+SETUP += NEAR[6:] + NEAR[:2]
+POST_END += NEAR
 BLANKS = ['', '', '', ' ', '   ', '\t', ' \t ']
 INSIDE_WARN = ['WARNING: foo', 'WARNING:', 'ERROR on proc 0:', 'WARNING: Bond/angle/dihedral extent > half of periodic box length (src/domain.cpp:936)',
                'WARNING: Too many warnings: 101 vs 100. All future warnings will be suppressed (src/thermo.cpp:460)']
@@ -662,6 +678,8 @@ def gen_run(rng, start, size, allow_dirty, era, keys=None, force=None):
     n = rng.choice([0, 1, 1, 2, 2, 3, 4, 5, 6, 8, 11])
     if size == 'big':
         n = rng.randint(20, 80)
+    if size == 'huge':          # a log beyond the 256 KiB chunk of the C parser
+        n = rng.randint(1500, 2500)
     dt = rng.choice([1, 5, 10, 10, 50, 100, 100, 1000, 250000])
     # a float column of one run may happen to print integers only (pandas then types it int64 for that run) or
     # values a hair away from integers
@@ -683,7 +701,7 @@ def gen_run(rng, start, size, allow_dirty, era, keys=None, force=None):
         rows.append(row)
     r.rows = rows
     r.complete = True
-    r.style = rng.choice(['single', 'old', 'new', 'new', 'tab', 'rand'])
+    r.style = rng.choice(['single', 'old', 'new', 'new', 'tab', 'rand']) if size != 'huge' else 'new'
     r.breakdown = rng.choice([era[1], era[1], 'none', 'none-nohist'])
     r.minimize = rng.random() < 0.25
     r.gap = rng.choice([0, 0, 0, 1, 2])
@@ -815,7 +833,7 @@ def gen_log(rng, nruns=None, size='small', allow_dirty=False, allow_backward=Tru
         suf = rng.choice(['', '', '', ' - Update 1', ' - Update 3', '-7-g1a2b3c', ' - Development', ' – x'])
         S.version = (d, m, y, suf)
     if nruns is None:
-        nruns = rng.choice([0, 1, 1, 2, 2, 3, 3, 4, 5, 6])
+        nruns = rng.choice([0, 1, 1, 2, 2, 3, 3, 4, 5, 6]) if size != 'huge' else rng.choice([1, 2])
     L = []
     L += _noise(rng, BLANKS, 0, 1)
     if S.version is not None:
@@ -1032,11 +1050,12 @@ def impl_perf(df):
     return (cols, rows)
 
 
-def impl_state(log):
+def impl_state(log, record=True):
     d = log.lammps_date
     return {'version': log.lammps_version,
             'date': None if d is None else (d.year, d.month, d.day),
-            'sims': [(impl_table(s.thermo), impl_perf(s.performance)) for s in log.simulations]}
+            'sims': [(impl_table(s.thermo, record), impl_perf(s.performance)) for s in log.simulations],
+            'keys': [list(s.keys()) for s in log.simulations]}
 
 
 EXC_CLASS = {'ParserError': 'parser', 'EmptyDataError': 'parser', 'ValueError': 'value', 'IndexError': 'index',
@@ -1235,8 +1254,9 @@ def gen_history(rng, allow_dirty, size='small', allow_backward=True):
     """-> (logs: [{'text','expect'}], ops)."""
     nlogs = rng.choice([1, 1, 1, 2, 2, 3, 4])
     logs = []
-    for _ in range(nlogs):
-        S = gen_log(rng, size=size, allow_dirty=allow_dirty, allow_backward=allow_backward)
+    for idx in range(nlogs):
+        S = gen_log(rng, size=size if (size != 'huge' or idx == 0) else 'small', allow_dirty=allow_dirty,
+                    allow_backward=allow_backward)
         logs.append({'text': S.text(), 'expect': expect_of(S)})
     ops = []
 
@@ -1246,8 +1266,13 @@ def gen_history(rng, allow_dirty, size='small', allow_backward=True):
             b = rng.choice([None] * 8 + [1, 2, 3, -1, 9, 0])
             # style None: not given (documented default 'last'); arguments by position, by keyword, or by keyword with
             # those that are None left out
-            ops.append(['flatten', rng.choice(['first'] * 5 + ['last'] * 5 + ['all'] * 4 + ['bogus', None, None]), a, b,
-                        rng.choice(['pos', 'kw', 'min'])])
+            style = rng.choice(['first'] * 5 + ['last'] * 5 + ['all'] * 4 + ['bogus', None, None])
+            if rng.random() < 0.15:
+                # the caller edits a record he was handed (drops its last row in place) between two identical
+                # questions: the second answer sees the edit
+                ops.append(['flatten', style, a, b, rng.choice(['pos', 'kw', 'min'])])
+                ops.append(['droprow', rng.choice([0, 0, 1, 1, 2, 3, 5])])
+            ops.append(['flatten', style, a, b, rng.choice(['pos', 'kw', 'min'])])
 
     for k in range(nlogs):
         mode = rng.choice(INPUT_MODES)
@@ -1378,7 +1403,7 @@ def _input(files, text, mode):
     raise ValueError(mode)
 
 
-EMPTY_STATE = {'version': None, 'date': None, 'sims': []}
+EMPTY_STATE = {'version': None, 'date': None, 'sims': [], 'keys': []}
 
 
 def _scribble(df):
@@ -1413,6 +1438,9 @@ def run_impl(logs, ops, files):
     log = None
     objs = {}
     nopen = len(files.open)
+    # after the caller dropped a row of a record, a column may hold numbers as text for a reason that is gone (the junk
+    # token was in the dropped row): from then on the tables of this Log are compared by value only
+    pristine = True
 
     def fresh_log(notes):
         lg = lmp.Log()
@@ -1439,6 +1467,7 @@ def run_impl(logs, ops, files):
                     if pre is not None and mode in STREAM_MODES:
                         src.seek(_byte_pos(text, pre))
                     if op[0] == 'ctor':
+                        pristine = True
                         log = lmp.Log(src) if form == 'pos' else lmp.Log(log_info=src)
                     else:
                         if log is None:
@@ -1458,22 +1487,34 @@ def run_impl(logs, ops, files):
                             tell = src.tell()
                             if _stream_bytes(src, mode, getattr(src, 'name', None)) != text.encode('utf-8'):
                                 notes.append('the content of the stream handed to the read was changed by it')
+                            if not reuse:
+                                # `with open(...) as f: log.read(f)`: what was read does not depend on the stream any more
+                                src.close()
                     elif mode in ('path', 'pathobj', 'samepath'):
                         with open(str(src), 'rb') as f:
                             if f.read() != text.encode('utf-8'):
                                 notes.append('the file whose path was handed to the read was changed by it')
-                    out.append(('state', impl_state(log), tell, notes))
+                    out.append(('state', impl_state(log, pristine), tell, notes))
+                elif op[0] == 'droprow':
+                    j = op[1]
+                    if log is None:
+                        log = fresh_log([])
+                    if j < len(log.simulations) and len(log.simulations[j].thermo) >= 1:
+                        t = log.simulations[j].thermo
+                        t.drop(t.index[-1], inplace=True)
+                        pristine = False
+                    out.append(('state', impl_state(log, pristine), None, []))
                 elif op[0] == 'flatten':
                     notes = []
                     if log is None:
                         log = fresh_log(notes)
-                    before = [impl_table(x.thermo) for x in log.simulations]
+                    before = [impl_table(x.thermo, pristine) for x in log.simulations]
                     form = op_form(op)
                     style, fi, la = op[1], op[2], op[3]
 
                     def changed_since():
                         # flatten is a query: the records of the log are what they were (also after a refusal)
-                        after = [impl_table(x.thermo) for x in log.simulations]
+                        after = [impl_table(x.thermo, pristine) for x in log.simulations]
                         if len(after) != len(before):
                             return f'{len(before)} records before, {len(after)} after'
                         for j, (b, a) in enumerate(zip(before, after)):
@@ -1497,16 +1538,20 @@ def run_impl(logs, ops, files):
                         continue
                     res = ('table', impl_table(sim.thermo, record=False))
                     changed = changed_since() or (notes[0] if notes else None)
+                    keysnote = None
+                    if list(sim.keys()) != ['thermo'] or sim.performance is not None:
+                        keysnote = (f'the Simulation returned by flatten has keys {list(sim.keys())} and '
+                                    f'{"a" if sim.performance is not None else "no"} performance table: expected thermo only')
                     # flatten hands out a new table: whatever the caller does to it, the log keeps its records
                     aliased = None
                     if changed is None:
                         _scribble(sim.thermo)
-                        after2 = [impl_table(x.thermo) for x in log.simulations]
+                        after2 = [impl_table(x.thermo, pristine) for x in log.simulations]
                         j = next((j for j, (x, y) in enumerate(zip(before, after2)) if x != y), None)
                         if j is not None:
                             aliased = (f'the table returned by flatten is not a new one: after the caller overwrote the '
                                        f'returned table in place, record {j} of the log has columns {after2[j][0]}')
-                    out.append(res + (changed, aliased))
+                    out.append(res + (changed, aliased, keysnote))
             except Exception as e:  # noqa
                 out.append(('err', exc_class(e), f'{type(e).__name__}: {str(e)[:200]}'))
                 if op[0] != 'flatten':      # a failed read leaves the object half-updated: stop the history
@@ -1556,6 +1601,10 @@ def model_requests(logs, ops):
             else:
                 req.append(f'read {a} ' + ' '.join(enc(l) for l in text.split('\n')))
                 where.append(len(req) - 1)
+        elif op[0] == 'droprow':
+            req.append(f'droprow {op[1]}')
+            req.append('state')
+            where.append(len(req) - 1)
         else:
             f = lambda x: 'none' if x is None else str(x)  # noqa
             req.append(f'flatten {enc(flatten_style(op))} {f(op[2])} {f(op[3])}')
@@ -1598,6 +1647,8 @@ def compare_history(logs, ops, impl_out, replies, where):
                 return k, 'flatten changed the records of the log: ' + res[2]
             if len(res) > 3 and res[3]:
                 return k, res[3]
+            if len(res) > 4 and res[4]:
+                return k, res[4]
             mt = parse_table_reply(rep)
             if res[1][0] != mt[0]:
                 return k, f'flatten columns {res[1][0]} != model {mt[0]}'
@@ -1632,7 +1683,7 @@ def correspond(ctx):
             impl_out = run_impl(logs, ops, files)
             bad = compare_history(logs, ops, impl_out, rep, where)
             kinds = '+'.join(sorted({o[0] for o in ops}))
-            if any(o[0] != 'flatten' and (op_input(o)[3] or op_input(o)[4] is not None) for o in ops):
+            if any(o[0] in ('ctor', 'read') and (op_input(o)[3] or op_input(o)[4] is not None) for o in ops):
                 kinds += '+reused/positioned-stream'
                 nreuse += 1
             nruns = sum(len(l['expect']['runs']) for l in logs) if all('expect' in l for l in logs) else -1
@@ -1768,6 +1819,52 @@ def flatten_clauses(style, runs, table):
     return None
 
 
+def _state_clauses(k, st, cur):
+    """the records, version and date of the log against what was printed. -> None or (key, description)"""
+    for j, ((tab, _), run) in enumerate(zip(st['sims'], cur['runs'])):
+        if tab[0] != run['cols']:
+            return 'read:columns', f'op {k}: run {j}: columns {tab[0]} != printed {run["cols"]}'
+        if len(tab[1]) != len(run['rows']):
+            kind = 'read:truncated' if not run['complete'] else 'read:rows'
+            return kind, (f'op {k}: run {j} ({"complete" if run["complete"] else "truncated"}): '
+                          f'{len(tab[1])} rows read, {len(run["rows"])} printed')
+        si = run['cols'].index('Step') if 'Step' in run['cols'] else None
+        for i, (a, b) in enumerate(zip(tab[1], run['rows'])):
+            b = b + ['nan'] * (len(run['cols']) - len(b))      # a line cut short: the missing fields are NaN
+            if not row_equal(a, b):
+                return 'read:values', (f'op {k}: run {j} row {i}: {[_show(x) for x in a]} != printed {b}')
+            # the timestep is an integer (LAMMPS bigint, below 2^63) and is read exactly, also beyond 2^53
+            if si is not None and si < len(run['rows'][i]) and a[si] != Fraction(int(b[si])):
+                return 'read:values', (f'op {k}: run {j} row {i}: Step {_show(a[si])} != printed {b[si]} '
+                                       f'(off by {_show(a[si] - int(b[si])) if isinstance(a[si], Fraction) else "?"})')
+    if st['version'] != cur['version']:
+        return 'read:version', f'op {k}: lammps_version {st["version"]!r}, expected {cur["version"]!r}'
+    want_date = None if cur['date'] is None else tuple(cur['date'])
+    if st['date'] != want_date:
+        return 'read:date', f'op {k}: lammps_date {st["date"]}, expected {want_date}'
+    # the record of a run carries the timing breakdown printed after that run (and no other)
+    for j, ((_, perf), run) in enumerate(zip(st['sims'], cur['runs'])):
+        if 'perf' not in run:
+            continue            # replay written before the breakdown was part of the specification
+        want = run['perf']
+        if (perf is None) != (want is None):
+            return 'read:performance', (f'op {k}: run {j}: the record has '
+                                        f'{"a" if perf is not None else "no"} performance table, the log prints '
+                                        f'{"a" if want is not None else "no"} timing breakdown after that run')
+        if want is not None:
+            if perf[0] != want[0]:
+                return 'read:performance', f'op {k}: run {j}: performance columns {perf[0]} != printed {want[0]}'
+            if not table_equal(perf, (want[0], want[1])):
+                return 'read:performance', (f'op {k}: run {j}: performance table '
+                                            f'{[[_show(c) for c in r] for r in perf[1]]} != printed {want[1]}')
+    if 'keys' in st:
+        for j, (keys, (_, perf)) in enumerate(zip(st['keys'], st['sims'])):
+            want = ['thermo'] + (['performance'] if perf is not None else [])
+            if keys != want:
+                return 'read:record-keys', f'op {k}: run {j}: the record has keys {keys}, expected {want}'
+    return None
+
+
 def check_history_clauses(logs, ops, impl_out):
     """-> None or (key, description): the clauses of C19 evaluated on what the real code returned."""
     cur = None     # expected {'version','date','runs'} after the reads so far
@@ -1784,7 +1881,7 @@ def check_history_clauses(logs, ops, impl_out):
                    'date': cur['date'] if cur['version'] is not None else e['date'],
                    'runs': cur['runs'] + e['runs']}
             how = mode + ' input' + (', the object handed over before' if reuse and any(
-                o[0] != 'flatten' and op_input(o)[3] and (o[1], op_input(o)[2]) == (op[1], mode) for o in ops[:k]) else '') \
+                o[0] in ('ctor', 'read') and op_input(o)[3] and (o[1], op_input(o)[2]) == (op[1], mode) for o in ops[:k]) else '') \
                 + (f', left by the caller at character {pre} of {len(logs[op[1]]["text"])}' if pre is not None else '')
             if res[0] == 'err':
                 if mode in TEXT_STREAM_MODES and res[1] == REFUSED:
@@ -1799,37 +1896,24 @@ def check_history_clauses(logs, ops, impl_out):
                         f'{"position" if op_form(op) == "pos" else "keyword"}): {len(st["sims"])} simulation records, '
                         f'expected {len(cur["runs"])} (one per run, '
                         f'{"appended after the existing ones" if append else "the existing ones dropped"})')
-            for j, ((tab, _), run) in enumerate(zip(st['sims'], cur['runs'])):
-                if tab[0] != run['cols']:
-                    return 'read:columns', f'op {k}: run {j}: columns {tab[0]} != printed {run["cols"]}'
-                if len(tab[1]) != len(run['rows']):
-                    kind = 'read:truncated' if not run['complete'] else 'read:rows'
-                    return kind, (f'op {k}: run {j} ({"complete" if run["complete"] else "truncated"}): '
-                                  f'{len(tab[1])} rows read, {len(run["rows"])} printed')
-                for i, (a, b) in enumerate(zip(tab[1], run['rows'])):
-                    b = b + ['nan'] * (len(run['cols']) - len(b))      # a line cut short: the missing fields are NaN
-                    if not row_equal(a, b):
-                        return 'read:values', (f'op {k}: run {j} row {i}: {[_show(x) for x in a]} != printed {b}')
-            if st['version'] != cur['version']:
-                return 'read:version', f'op {k}: lammps_version {st["version"]!r}, expected {cur["version"]!r}'
-            want_date = None if cur['date'] is None else tuple(cur['date'])
-            if st['date'] != want_date:
-                return 'read:date', f'op {k}: lammps_date {st["date"]}, expected {want_date}'
-            # the record of a run carries the timing breakdown printed after that run (and no other)
-            for j, ((_, perf), run) in enumerate(zip(st['sims'], cur['runs'])):
-                if 'perf' not in run:
-                    continue            # replay written before the breakdown was part of the specification
-                want = run['perf']
-                if (perf is None) != (want is None):
-                    return 'read:performance', (f'op {k}: run {j}: the record has '
-                                                f'{"a" if perf is not None else "no"} performance table, the log prints '
-                                                f'{"a" if want is not None else "no"} timing breakdown after that run')
-                if want is not None:
-                    if perf[0] != want[0]:
-                        return 'read:performance', f'op {k}: run {j}: performance columns {perf[0]} != printed {want[0]}'
-                    if not table_equal(perf, (want[0], want[1])):
-                        return 'read:performance', (f'op {k}: run {j}: performance table '
-                                                    f'{[[_show(c) for c in r] for r in perf[1]]} != printed {want[1]}')
+            bad = _state_clauses(k, st, cur)
+            if bad:
+                return bad
+        elif op[0] == 'droprow':
+            if cur is None:
+                cur = {'version': None, 'date': None, 'runs': []}
+            j = op[1]
+            if res[0] == 'err':
+                return 'edit:raises', f'op {k}: dropping the last row of record {j} in place raised {res[2]}'
+            if j < len(cur['runs']) and cur['runs'][j]['rows']:
+                cur = dict(cur, runs=cur['runs'][:j] + [dict(cur['runs'][j], rows=cur['runs'][j]['rows'][:-1])]
+                           + cur['runs'][j + 1:])
+            st = res[1]
+            if len(st['sims']) != len(cur['runs']):
+                return 'edit:records', f'op {k}: after an in-place edit of record {j} the log has {len(st["sims"])} records'
+            bad = _state_clauses(k, st, cur)
+            if bad:
+                return 'edit:' + bad[0].split(':')[1], ('after the caller dropped the last row of record %d in place: ' % j) + bad[1]
         else:
             if cur is None:
                 continue
@@ -1844,6 +1928,8 @@ def check_history_clauses(logs, ops, impl_out):
                                                f'asked about: {res[3]}')
             if res[0] == 'table' and len(res) > 3 and res[3]:
                 return 'flatten:aliases-log', f'op {k} {call}: {res[3]}'
+            if res[0] == 'table' and len(res) > 4 and res[4]:
+                return 'flatten:record-keys', f'op {k} {call}: {res[4]}'
             runs = cur['runs'][slice(op[2], op[3])]
             # the documented refusals: runs without a Step column cannot be merged (assertion), unknown style (ValueError)
             refusal = None
@@ -1859,6 +1945,9 @@ def check_history_clauses(logs, ops, impl_out):
                     return 'flatten:refusal', (f'op {k} {call} over {len(runs)} runs: {refusal[1]} is refused by '
                                                f'{res[2]}, documented: {"AssertionError" if refusal[0] == "err:assert" else "ValueError"}')
                 continue
+            if len(runs) == 0 and res[0] == 'table' and len(res[1][1]) > 0:
+                return 'flatten:selection', (f'op {k} {call}: simulations[{op[2]}:{op[3]}] of {len(cur["runs"])} records is '
+                                             f'empty, the result has {len(res[1][1])} rows')
             ok_in = (style in ('first', 'last', 'all') and len(runs) >= 1
                      and all('Step' in r['cols'] and len(r['rows']) >= 1 for r in runs))
             if not ok_in:
@@ -1882,7 +1971,7 @@ def search(ctx, broken):
             'ops': [['ctor', 0, 'text'], ['read', 0, True, 'text']]}
     try:
         for it in range(N):
-            size = 'big' if it % 50 == 49 else 'small'
+            size = 'huge' if it % 400 == 57 else 'big' if it % 50 == 49 else 'small'
             logs, ops = gen_history(rng, allow_dirty=False, size=size, allow_backward=(it % 5 == 4))
             logs0, ops0 = logs, ops
             impl_out = run_impl(logs, ops, files)
